@@ -24,6 +24,16 @@ CHECKS = {
         "arithmetic law over a huge but regular input space.",
         "",
     ),
+    "C01": (
+        "4/C01",
+        "Hypothesis-generated event schedules run through the real Scenario on an in-process Ray double; delivery log vs integer reference model; closed-form Kepler reference for impulse effects",
+        "Generated scenarios (start instant, step, 1-4 events of every kind, >=60% on step boundaries, two engines) are executed by the "
+        "real Scenario.propagateTo; every handleEvent call is logged and compared with an exact reference model of which step and "
+        "addressee each event belongs to; membership, time-bias activity, priority effect on rewards and impulse effect on the truth "
+        "trajectory are checked after every step. Right level: the property quantifies over a large configuration space whose failing "
+        "region (boundary-aligned times) is thin and is hit by construction.",
+        "Truth dynamics restricted to two-body so that the closed-form solution is the reference for impulse effects.",
+    ),
 }
 
 REASON_PENDING = "not claimed yet: generated-input check for this property is still under construction (see DESIGN.md section 10)"
